@@ -350,6 +350,10 @@ func runC09Case(c *sim.RunCtx, cs *c09Case) {
 	if res.Completed && !res.Partial {
 		exp := cs.Content
 		if cs.Cons == consChunkReader {
+			if cs.Off > len(cs.Content) {
+				c.Fail("completed-at-invalid-offset", "a chunk reader opened at offset %d of a %d byte object completed successfully [%s]", cs.Off, len(cs.Content), desc)
+				return
+			}
 			exp = cs.Content[cs.Off:]
 		}
 		if !bytes.Equal(res.Got, exp) {
